@@ -345,15 +345,15 @@ def ensure_has_primary_key(intermediate_repr, force_pk_id=False):
                 if params[candidate_pks[0]].get("doc")
                 else "[PK]"
             )
-        elif "id" in intermediate_repr.get("params", iter(())):
+        elif "id" in params:
             params["id"]["doc"] = (
                 "[PK] {}".format(params["id"]["doc"])
                 if params["id"].get("doc")
                 else "[PK]"
             )
         else:
-            assert "id" not in intermediate_repr.get(
-                "params", iter(())
+            assert (
+                "id" not in params
             ), "Primary key unable to infer and column `id` already taken"
             params["id"] = {
                 "doc": "[PK]",
